@@ -5,8 +5,10 @@
 (*               system call, both under the cache lock; the operation takes effect at    *)
 (*               some point in between (fsnotify's reader does not take that lock)        *)
 (*   recv        an event passed the watcher goroutine's filter (watch.prelock hook)     *)
-(*   handled     the watcher goroutine finished its critical section: snapshot of the    *)
-(*               cache state (watch.handled hook, still under the lock)                  *)
+(*   updated     the watcher goroutine, inside its critical section, has updated the      *)
+(*               watches (watch.updated hook): snapshot                                   *)
+(*   scanned     ... has rescanned (refresh.done hook in that goroutine): snapshot        *)
+(*   handled     ... is about to unlock (watch.handled hook)                              *)
 (*   op          a public operation entered its critical section: snapshot of the state   *)
 (*               it found (op hook, right after Lock)                                    *)
 (*   configured  Configure() finished: options and snapshot (configure.done hook)        *)
@@ -74,7 +76,10 @@ RecvStep ==
   /\ pend' = pend \ {TEv.w}
   /\ UNCHANGED <<vars, pfs>>
 
-HandledStep == Is("handled") /\ pfs = NoFs /\ TEv.w \in Wids \ pend /\ GorHandle(TEv.w) /\ MatchNext(TEv.st) /\ UNCHANGED <<pend, pfs>>
+UpdatedStep == /\ Is("updated") /\ pfs = NoFs /\ TEv.w \in Wids \ pend /\ GorHandle(TEv.w) /\ gor'[TEv.w].pc = "scan"
+               /\ MatchNext(TEv.st) /\ UNCHANGED <<pend, pfs>>
+ScannedStep == Is("scanned") /\ pfs = NoFs /\ GorScan(TEv.w) /\ MatchNext(TEv.st) /\ UNCHANGED <<pend, pfs>>
+HandledStep == Is("handled") /\ pfs = NoFs /\ gor[TEv.w].pc # "scan" /\ UNCHANGED <<vars, pend, pfs>>
 
 QueryOps == {"ListDevices", "GetDevice", "InjectDevices", "ListVendors", "ListClasses", "GetVendorSpecs", "Refresh"}
 OpStep ==
@@ -91,8 +96,10 @@ Silent ==
                      \/ (infl[w] # NoEv /\ ~Relevant(infl[w]) /\ GorRecv(w) /\ UNCHANGED pend)
                      \/ (infl[w] # NoEv /\ Relevant(infl[w]) /\ GorRecv(w) /\ pend' = pend \cup {w})
                      \/ GorExit(w) /\ UNCHANGED pend
+                     \* a goroutine whose watcher has been replaced takes the mutex, sees that, and returns
+                     \/ (w \notin pend /\ FIX_STALE /\ w # WatcherPtr /\ GorHandle(w) /\ UNCHANGED pend)
 
-TraceNext == FsBegin \/ FsApply \/ FsEnd \/ RecvStep \/ HandledStep \/ OpStep \/ ConfiguredStep \/ Silent
+TraceNext == FsBegin \/ FsApply \/ FsEnd \/ RecvStep \/ UpdatedStep \/ ScannedStep \/ HandledStep \/ OpStep \/ ConfiguredStep \/ Silent
 TraceSpec == TraceInit /\ [][TraceNext]_tvars
 
 \* violated <=> some behaviour consumed the whole trace <=> the trace is accepted
